@@ -25,6 +25,11 @@ def encd(o, c, t):
     return 10000.0 * o + 100.0 * c + (0 if t is None else t) + 0.25
 
 
+def vscale(spec):
+    """integer-typed measurements (spike counts ...) hold 4x the encoded value, which is integral"""
+    return 4.0 if spec.get('dtype') == 'int64' else 1.0
+
+
 def tval(t):
     return t / 4.0 - 1.0
 
@@ -33,6 +38,7 @@ def gen_data_family(rng, n_roots=(1, 2)):
     roots = []
     used_o = set()
     used_t = set()
+    fdtype = rng.pick(['float64'] * 7 + ['float32', 'int64'])      # dtype of the measurements handed to the constructor (per family)
     ctyp = rng.pick(['int', 'str', 'float'])      # one label type per descriptor across the family (numpy coerces mixed columns)
     n_ch = rng.pick([1, 1, 2, 3, 4, 5])
     cu = rng.sample(range(0, 31), n_ch)
@@ -54,7 +60,7 @@ def gen_data_family(rng, n_roots=(1, 2)):
                 'obs_desc': {'cond': gen.gen_grouping(rng, n_obs, kinds=('groups', 'groups', 'unique', 'allsame'), typ=ctyp),
                              'run': gen.gen_grouping(rng, n_obs, kinds=('groups', 'unique'), typ='int')},
                 'ch_desc': ch_desc, 'time_desc': {}, 'order': rng.pick(['F', 'S']) if rng.chance(0.3) else 'C',
-                'dtype': 'float32' if rng.chance(0.12) else 'float64',
+                'dtype': fdtype,
                 'descriptors': {'subj': rng.pick(['s1', 's2']), 'sess': rng.pick([1, 2])}}
         if rng.chance(0.15):
             # descriptors with one *row* per item (an (onset, duration) pair per observation, a position per channel)
@@ -106,14 +112,14 @@ def build_dataset(spec):
     for k, d in spec['ch_desc'].items():
         ch[k] = _cont(d)
     if spec['temporal']:
-        m = np.array([[[encd(o, c, t) for t in tu] for c in cu] for o in ou], dtype=float).reshape(len(ou), len(cu), len(tu))
+        m = vscale(spec) * np.array([[[encd(o, c, t) for t in tu] for c in cu] for o in ou], dtype=float).reshape(len(ou), len(cu), len(tu))
         m = _layout(m, spec)
         td = {'time': np.array([tval(t) for t in tu])}
         for k, d in spec['time_desc'].items():
             td[k] = _cont(d)
         return TemporalDataset(m, descriptors=dict(spec['descriptors']), obs_descriptors=obs, channel_descriptors=ch,
                                time_descriptors=td)
-    m = np.array([[encd(o, c, None) for c in cu] for o in ou], dtype=float).reshape(len(ou), len(cu))
+    m = vscale(spec) * np.array([[encd(o, c, None) for c in cu] for o in ou], dtype=float).reshape(len(ou), len(cu))
     m = _layout(m, spec)
     return Dataset(m, descriptors=dict(spec['descriptors']), obs_descriptors=obs, channel_descriptors=ch)
 
@@ -129,9 +135,14 @@ class DataOps:
         self.pool = pool
         self.ctx = pool.ctx
         self.obs_tab, self.ch_tab, self.time_tab = {}, {}, {}
+        self.vs = vscale(family['roots'][0])
         for spec in family['roots']:
             for i, o in enumerate(spec['ou']):
                 self.obs_tab[o] = {k: d['values'][i] for k, d in spec['obs_desc'].items()}
+                # what the root says about all its rows at dataset level (subject, session) belongs to each row too: after
+                # any history it must be found on the row or, where it is the same for all rows, at dataset level
+                for k, v in spec.get('descriptors', {}).items():
+                    self.obs_tab[o].setdefault(k, v)
             for j, c in enumerate(spec['cu']):
                 self.ch_tab[c] = {k: d['values'][j] for k, d in spec['ch_desc'].items()}
             for k_, t in enumerate(spec['tu']):
@@ -209,18 +220,18 @@ class DataOps:
             for j, (c, tc) in enumerate(cols):
                 if times is None:
                     t = tr if tr is not None else tc
-                    exp = encd(o, c, t)
+                    exp = self.vs * encd(o, c, t)
                     if m[i, j] != exp:
                         return rep('assoc', f'cell (row {i}: obs {o} time {tr}; col {j}: channel {c} time {tc}) is {m[i, j]!r}, source value {exp}')
                 else:
                     for k, t in enumerate(times):
                         if binned is not None:
                             mem = binned[k]
-                            exp = float(np.mean([encd(o, c, tt) for tt in mem]))
+                            exp = float(np.mean([self.vs * encd(o, c, tt) for tt in mem]))
                             if abs(m[i, j, k] - exp) > 1e-9 * (1 + abs(exp)):
                                 return rep('bin', f'binned cell obs {o} channel {c} bin {k} (members {mem}) is {m[i, j, k]!r}, mean of members is {exp}')
                         else:
-                            exp = encd(o, c, t)
+                            exp = self.vs * encd(o, c, t)
                             if m[i, j, k] != exp:
                                 return rep('assoc', f'cell obs {o} channel {c} time {t} at ({i},{j},{k}) is {m[i, j, k]!r}, source value {exp}')
         # descriptors
@@ -718,7 +729,7 @@ class DataOps:
         for i, (o_, _) in enumerate(rows):
             for j, (c, _) in enumerate(cols):
                 for k, mem in enumerate(sem['bins']):
-                    exp = float(np.mean([encd(o_, c, t) for t in mem]))
+                    exp = float(np.mean([self.vs * encd(o_, c, t) for t in mem]))
                     tol = 1e-6 if np.asarray(slot.parent_dtype if hasattr(slot, 'parent_dtype') else m).dtype == np.float32 else 1e-9
                     if abs(m[i, j, k] - exp) > tol * (1 + abs(exp)):
                         return self._fail(slot, 'C11', 'bin_time', 'bin',
@@ -779,6 +790,8 @@ class DataOps:
             return False
         if any(tok[1] is not None for tok in src.sem['rows'] + src.sem['cols']):
             return False     # float time columns would be taken for channels by from_df: not admissible
+        if not o['flag'] and src.obj.measurements.dtype.kind != 'f':
+            return False     # from_df(channels=None) recognises channel columns by their float dtype
         if any(np.asarray(v, dtype=object).ndim > 1 for v in list(src.obj.obs_descriptors.values()) + list(src.obj.channel_descriptors.values())):
             return False     # a table column holds one scalar per row: row-valued descriptors have no DataFrame form
         if not o['flag'] and (any(isinstance(x, (float, np.floating)) for v in src.obj.obs_descriptors.values() for x in v)
